@@ -1724,8 +1724,7 @@ func checkTrace(method string, tr *trace, st *eventStats) []issue {
 // rest. Every oracle over decorator snapshots presupposes this; it fails when the service hands the library something
 // else than it was sent (a recycled request object, a decoder that keeps earlier fields).
 func checkReceived(d decision) string {
-	if d.dm == nil || d.Trace == nil || !viaService {
-		// library mode hands d.dm itself to MakeDecision: only in service mode is it an independent record of the request
+	if d.sent == nil || d.Trace == nil {
 		return ""
 	}
 	var first *dmpSnap
@@ -1737,7 +1736,7 @@ func checkReceived(d decision) string {
 	if first == nil {
 		return ""
 	}
-	want := snapCrit(d.dm.Criteria)
+	want := snapCrit(d.sent.Criteria)
 	if len(want) != len(first.Crit) {
 		return fmt.Sprintf("the request declares %d criteria, the first stage received %d", len(want), len(first.Crit))
 	}
@@ -1748,7 +1747,7 @@ func checkReceived(d decision) string {
 		}
 	}
 	sent := map[string]map[string]float64{}
-	for _, a := range d.dm.KnownAlternatives {
+	for _, a := range d.sent.KnownAlternatives {
 		sent[a.Id] = a.Criteria
 	}
 	got := first.all()
@@ -1766,11 +1765,19 @@ func checkReceived(d decision) string {
 			}
 		}
 	}
-	if len(first.Cons) != len(d.dm.ChoseToMake) {
-		return fmt.Sprintf("choseToMake names %d alternatives, the first stage considers %d", len(d.dm.ChoseToMake), len(first.Cons))
+	var named []string // an alternative named twice is considered once, at its first position
+	seenName := map[string]bool{}
+	for _, id := range d.sent.ChoseToMake {
+		if !seenName[string(id)] {
+			seenName[string(id)] = true
+			named = append(named, string(id))
+		}
 	}
-	for i, id := range d.dm.ChoseToMake {
-		if first.Cons[i].Id != string(id) {
+	if len(first.Cons) != len(named) {
+		return fmt.Sprintf("choseToMake names %d alternatives, the first stage considers %d", len(named), len(first.Cons))
+	}
+	for i, id := range named {
+		if first.Cons[i].Id != id {
 			return fmt.Sprintf("considered alternative #%d is '%s', choseToMake has '%s' there", i, first.Cons[i].Id, id)
 		}
 	}
